@@ -466,7 +466,7 @@ func init() {
 		}
 		return &StrVal{C: strconv.Quote(a)}
 	}
-	natives["strings.IndexByte"] =func(in *Interp, fn *ssa.Function, args []Value) Value {
+	natives["strings.IndexByte"] = func(in *Interp, fn *ssa.Function, args []Value) Value {
 		a, ok1 := in.cStr(args[0])
 		b, ok2 := in.cUint(args[1])
 		if !ok1 || !ok2 {
@@ -482,7 +482,7 @@ func init() {
 		}
 		return in.St.BV(uint64(int64(strings.LastIndex(a, b))), 64)
 	}
-	natives["strings.TrimPrefix"] =func(in *Interp, fn *ssa.Function, args []Value) Value {
+	natives["strings.TrimPrefix"] = func(in *Interp, fn *ssa.Function, args []Value) Value {
 		a, ok1 := in.cStr(args[0])
 		b, ok2 := in.cStr(args[1])
 		if !ok1 || !ok2 {
